@@ -36,14 +36,13 @@ Fixpoint lrun (ops : list lop) (s : lstate) : res lstate :=
   end.
 
 (* what the implementation guarantees about each input before it reaches the ledger (message Check functions, uint64 ranges,
-   order ids are transaction hashes, slashes name committee members) *)
+   order ids are transaction hashes) *)
 Definition op_ok (o : lop) (s : lstate) : Prop :=
   match o with
   | OpTx sender fee m =>
       LC.msg_bounded m /\ LS.msg_wf m /\ LC.msg_chain_ok m /\ LC.msg_fresh m s /\ fee < two64 /\
       LC.total s + LC.mint_of m < two64
-  | OpSlash a _ _ _ => forall v, aget a (l_vals s) = Some v -> v_delegate v = false
-  | _ => True
+  | _ => True        (* a slash needs no side condition: since the repair of SlashValidator it handles delegates as well *)
   end.
 Fixpoint hist_ok (ops : list lop) (s : lstate) : Prop :=
   match ops with
@@ -285,10 +284,14 @@ Proof.
   assert (F1 : fpoc s st) by (eapply fpoc_upd; exact Eb).
   eapply fpoc_trans; [exact F1|].
   destruct (after =? 0); [eapply fpoc_delete_validator; exact H|].
-  binv H. binv H. binv H.
+  binv H. binv H.
   eapply fpoc_trans; [eapply fpoc_upd; exact Eb0|].
-  eapply fpoc_trans; [eapply fpoc_delete_committees; exact Eb1|].
-  eapply fpoc_trans; [eapply fpoc_set_committees; exact Eb2|].
+  assert (F2 : fpoc st0 st1).
+  { destruct (v_delegate v).
+    - binv Eb1. binv Eb1. eapply fpoc_trans; [eapply fpoc_upd; exact Eb2|].
+      eapply fpoc_trans; [eapply fpoc_delete_delegations; exact Eb3|eapply fpoc_set_delegations; exact Eb1].
+    - binv Eb1. eapply fpoc_trans; [eapply fpoc_delete_committees; exact Eb2|eapply fpoc_set_committees; exact Eb1]. }
+  eapply fpoc_trans; [exact F2|].
   destruct (_ && _); inversion H; subst s'; [apply fpoc_suv|apply fpoc_put_val].
 Qed.
 Lemma fpoc_slash a chain percent already s s' : slash_validator a chain percent already s = LOk s' -> fpoc s s'.
@@ -358,6 +361,28 @@ Proof.
       rewrite LS.nget_nput by auto. destruct (N.eqb_spec c' c) as [->|Hne]; [contradiction|]. apply Hb. now right.
 Qed.
 
+Lemma each_add_deleg_ok x : forall cs s, NoDup cs -> LS.keys_sorted (LS.cst s) -> LS.keys_sorted (LS.cdl s) ->
+  (forall c, In c cs -> nget c (LS.cst s) + x < two64 /\ nget c (LS.cdl s) + x < two64) ->
+  exists s', each (fun c s => s1 <- add_cdelegated c x s ;; add_cstaked c x s1) cs s = LOk s'.
+Proof.
+  induction cs as [|c r IH]; intros s Hnd H1 H2 Hb.
+  - cbn. eauto.
+  - cbn [each]. inversion Hnd as [|? ? Hnin Hnd']; subst.
+    destruct (Hb c (or_introl eq_refl)) as [B1 B2].
+    rewrite LS.add_cdelegated_eq.
+    destruct (N.leb_spec two64 (nget c (LS.cdl s) + x)) as [Hle|_]; [lia|]. cbn [bind].
+    rewrite LS.add_cstaked_eq.
+    change (LS.cst (LS.with_c ?m1 ?m2 ?s0)) with m1. change (LS.cdl (LS.with_c ?m1 ?m2 ?s0)) with m2.
+    destruct (N.leb_spec two64 (nget c (LS.cst s) + x)) as [Hle|_]; [lia|]. cbn [bind].
+    apply IH; auto.
+    + change (LS.keys_sorted (nput c (nget c (LS.cst s) + x) (LS.cst s))). now apply LS.sorted_nput.
+    + change (LS.keys_sorted (nput c (nget c (LS.cdl s) + x) (LS.cdl s))). now apply LS.sorted_nput.
+    + intros c' Hc'.
+      change (nget c' (nput c (nget c (LS.cst s) + x) (LS.cst s)) + x < two64 /\
+              nget c' (nput c (nget c (LS.cdl s) + x) (LS.cdl s)) + x < two64).
+      rewrite !LS.nget_nput by auto. destruct (N.eqb_spec c' c) as [->|Hne]; [contradiction|]. apply Hb. now right.
+Qed.
+
 Lemma slash_tail_ok a v after newcs s : LS.wf s -> LS.Consistent s -> LC.Conserved s ->
   aget a (l_vals s) = Some v -> after <= v_stake v -> NoDup newcs -> incl newcs (v_committees v) ->
   exists s', LS.slash_tail a v after newcs s = LOk s'.
@@ -380,18 +405,45 @@ Proof.
   { intros c Hc. rewrite T3. pose proof (LS.wv_le_sw (LS.Pc c) a v _ Hg) as H. unfold LS.wv in H.
     change (LS.Pc c v) with (existsb (N.eqb c) (v_committees v)) in H.
     apply LS.existsb_eqb_In in Hc. now rewrite Hc in H. }
-  destruct (LS.each_ok _ _ _ (LS.step_sub_cstaked (v_stake v)) (LS.ok_sub_cstaked (v_stake v)) (v_committees v) s2 Hnd W5 W6) as [s3 Hs3].
-  { intros c Hc. split; [apply G3; auto|lia]. }
-  unfold delete_committees. rewrite Hs3. cbn [bind].
-  destruct (LS.each_spec _ _ _ _ _ (LS.step_sub_cstaked (v_stake v)) (v_committees v) s2 s3 Hnd W5 W6 Hs3)
-    as (n1 & n2 & -> & S1 & S2 & F1 & F2).
-  destruct (each_add_ok after newcs (LS.with_c n1 n2 s2) Hncs S1 S2) as [s4 Hs4].
-  { intros c Hc. change (LS.cst (LS.with_c n1 n2 s2)) with n1. specialize (F1 c).
-    change (LS.cst s2) with (s_cstaked (l_supply s1)) in F1.
-    assert (Hin : In c (v_committees v)) by (apply Hincl; exact Hc).
-    apply LS.existsb_eqb_In in Hin. rewrite Hin in F1. cbn [LS.ind] in F1.
-    pose proof (sw_le_Pt (LS.Pc c) (l_vals s1)). rewrite (T3 c) in F1. lia. }
-  unfold set_committees. rewrite Hs4. cbn [bind].
+  assert (Hmid : exists s4,
+    (if v_delegate v
+     then (d1 <- sub_delegated (v_stake v - after) s2 ;; d2 <- delete_delegations (v_stake v) (v_committees v) d1 ;; set_delegations after newcs d2)
+     else (s3 <- delete_committees (v_stake v) (v_committees v) s2 ;; set_committees after newcs s3)) = LOk s4).
+  { destruct (v_delegate v) eqn:Ed.
+    - assert (G2 : v_stake v <= s_delegated (l_supply s1)).
+      { rewrite T2. pose proof (LS.wv_le_sw v_delegate a v _ Hg) as H. unfold LS.wv in H. now rewrite Ed in H. }
+      assert (G4 : forall c, In c (v_committees v) -> v_stake v <= nget c (s_cdelegated (l_supply s1))).
+      { intros c Hc. rewrite T4. pose proof (LS.wv_le_sw (LS.Pd c) a v _ Hg) as H. unfold LS.wv in H.
+        change (LS.Pd c v) with (v_delegate v && existsb (N.eqb c) (v_committees v)) in H.
+        apply LS.existsb_eqb_In in Hc. now rewrite Hc, Ed in H. }
+      rewrite LS.sub_delegated_iff. change (s_delegated (l_supply s2)) with (s_delegated (l_supply s1)).
+      destruct (N.ltb_spec (s_delegated (l_supply s1)) (v_stake v - after)) as [Hbad|_]; [lia|].
+      cbn [bind]. set (s3 := LS.with_delegated _ s2).
+      destruct (LS.each_ok _ _ _ (LS.step_sub_deleg (v_stake v)) (LS.ok_sub_deleg (v_stake v)) (v_committees v) s3 Hnd W5 W6) as [s5 Hs5].
+      { intros c Hc. split; [apply G3|apply G4]; auto. }
+      unfold delete_delegations. rewrite Hs5. cbn [bind].
+      destruct (LS.each_spec _ _ _ _ _ (LS.step_sub_deleg (v_stake v)) (v_committees v) s3 s5 Hnd W5 W6 Hs5)
+        as (n1 & n2 & -> & S1 & S2 & F1 & F2).
+      apply each_add_deleg_ok; auto.
+      intros c Hc. change (LS.cst (LS.with_c n1 n2 s3)) with n1. change (LS.cdl (LS.with_c n1 n2 s3)) with n2.
+      specialize (F1 c). specialize (F2 c).
+      change (LS.cst s3) with (s_cstaked (l_supply s1)) in F1. change (LS.cdl s3) with (s_cdelegated (l_supply s1)) in F2.
+      assert (Hin : In c (v_committees v)) by (apply Hincl; exact Hc).
+      apply LS.existsb_eqb_In in Hin. rewrite Hin in F1, F2. cbn [LS.ind] in F1, F2.
+      pose proof (sw_le_Pt (LS.Pc c) (l_vals s1)). pose proof (sw_le_Pt (LS.Pd c) (l_vals s1)).
+      rewrite (T3 c) in F1. rewrite (T4 c) in F2. lia.
+    - destruct (LS.each_ok _ _ _ (LS.step_sub_cstaked (v_stake v)) (LS.ok_sub_cstaked (v_stake v)) (v_committees v) s2 Hnd W5 W6) as [s3 Hs3].
+      { intros c Hc. split; [apply G3; auto|lia]. }
+      unfold delete_committees. rewrite Hs3. cbn [bind].
+      destruct (LS.each_spec _ _ _ _ _ (LS.step_sub_cstaked (v_stake v)) (v_committees v) s2 s3 Hnd W5 W6 Hs3)
+        as (n1 & n2 & -> & S1 & S2 & F1 & F2).
+      apply each_add_ok; auto.
+      intros c Hc. change (LS.cst (LS.with_c n1 n2 s2)) with n1. specialize (F1 c).
+      change (LS.cst s2) with (s_cstaked (l_supply s1)) in F1.
+      assert (Hin : In c (v_committees v)) by (apply Hincl; exact Hc).
+      apply LS.existsb_eqb_In in Hin. rewrite Hin in F1. cbn [LS.ind] in F1.
+      pose proof (sw_le_Pt (LS.Pc c) (l_vals s1)). rewrite (T3 c) in F1. lia. }
+  destruct Hmid as [s4 ->]. cbn [bind].
   destruct (_ && _); eauto.
 Qed.
 
@@ -436,8 +488,8 @@ Proof.
     destruct (apply_tx sender fee m s) as [ok s1]. cbn [snd] in *.
     destruct A as [A1 A2]. destruct C as (_ & C2 & _). unfold LInv. tauto.
   - (* a slash *)
-    destruct (LS.slash_consistent _ _ _ _ _ _ W HC Hh Hop H) as [A1 A2].
-    pose proof (LS.slash_exclusive _ _ _ _ _ _ W HC Hh Hop Hx H) as B.
+    destruct (LS.slash_consistent _ _ _ _ _ _ W HC Hh H) as [A1 A2].
+    pose proof (LS.slash_exclusive _ _ _ _ _ _ W HC Hh Hx H) as B.
     destruct (LC.slash_conserves _ _ _ _ _ _ Wc Hc H) as (_ & C2 & _).
     pose proof (tail_fpoc _ _ (fpoc_slash _ _ _ _ _ _ H) (conj HE (conj HO HCh))) as D.
     unfold LInv. tauto.
